@@ -44,4 +44,57 @@ mxArray *mxGetProperty(const mxArray *a, mwIndex i, const char *name);
 mxArray *mxGetField(const mxArray *a, mwIndex i, const char *name);
 int mxAddField(mxArray *a, const char *name);
 void mxSetFieldByNumber(mxArray *a, mwIndex i, int field, mxArray *v);
+/* further documented C Matrix / MEX API (not used by the pinned header, declared so that an edited header
+   still type-checks) */
+size_t mxGetNumberOfElements(const mxArray *a);
+mwSize mxGetNumberOfDimensions(const mxArray *a);
+const mwSize *mxGetDimensions(const mxArray *a);
+size_t mxGetElementSize(const mxArray *a);
+bool mxIsEmpty(const mxArray *a);
+bool mxIsScalar(const mxArray *a);
+bool mxIsNumeric(const mxArray *a);
+bool mxIsChar(const mxArray *a);
+bool mxIsLogical(const mxArray *a);
+bool mxIsLogicalScalar(const mxArray *a);
+bool mxIsSingle(const mxArray *a);
+bool mxIsInt8(const mxArray *a);
+bool mxIsUint8(const mxArray *a);
+bool mxIsInt16(const mxArray *a);
+bool mxIsUint16(const mxArray *a);
+bool mxIsInt32(const mxArray *a);
+bool mxIsUint32(const mxArray *a);
+bool mxIsInt64(const mxArray *a);
+bool mxIsUint64(const mxArray *a);
+bool mxIsStruct(const mxArray *a);
+bool mxIsCell(const mxArray *a);
+bool mxIsClass(const mxArray *a, const char *name);
+const char *mxGetClassName(const mxArray *a);
+void *mxMalloc(size_t n);
+void *mxCalloc(size_t n, size_t size);
+void *mxRealloc(void *p, size_t n);
+mxArray *mxCreateLogicalScalar(bool v);
+mxArray *mxCreateLogicalMatrix(mwSize m, mwSize n);
+mxArray *mxCreateCellMatrix(mwSize m, mwSize n);
+mxArray *mxCreateCharMatrixFromStrings(mwSize m, const char **s);
+mxArray *mxGetCell(const mxArray *a, mwIndex i);
+void mxSetCell(mxArray *a, mwIndex i, mxArray *v);
+mxArray *mxGetFieldByNumber(const mxArray *a, mwIndex i, int field);
+int mxGetNumberOfFields(const mxArray *a);
+void mxSetProperty(mxArray *a, mwIndex i, const char *name, const mxArray *v);
+void mxSetData(mxArray *a, void *p);
+void mxSetM(mxArray *a, mwSize m);
+void mxSetN(mxArray *a, mwSize n);
+bool *mxGetLogicals(const mxArray *a);
+mxChar *mxGetChars(const mxArray *a);
+double *mxGetDoubles(const mxArray *a);
+double *mxGetPi(const mxArray *a);
+void mexWarnMsgTxt(const char *msg);
+void mexWarnMsgIdAndTxt(const char *id, const char *msg, ...);
+int mexEvalString(const char *cmd);
+void mexLock(void);
+void mexUnlock(void);
+bool mexIsLocked(void);
+const char *mexFunctionName(void);
+void mexMakeArrayPersistent(mxArray *a);
+void mexMakeMemoryPersistent(void *p);
 #endif
